@@ -36,7 +36,7 @@ REQUIRED = ["contract:Assertion.set_p_values", "contract:Audit.summarize_status"
             "status_asked_with_a_limit_within_one_ulp_of_the_measured_risk", "sampled_cards_with_the_contest_outside_its_own_sample_seen",
             "status_asked_after_p_values_changed_without_a_new_evaluation",
             "sample_handed_over_in_another_order_than_sample_number_order",
-            "assertion_set_changed_between_two_evaluations"]
+            "assertion_set_changed_between_two_evaluations", "status_asked_with_a_contest_that_has_no_assertions"]
 ASSUMPTIONS = ["samples have at least one observation per assertion", "summarize_status prints: stdout is swallowed, not parsed"]
 N_CASES = {"quick": 9600, "thorough": 80000}
 
@@ -124,7 +124,7 @@ def post_status(rec, result, a, k, old):
     lims = sorted(set(con.risk_limit for con in contests.values()))
     if len(lims) >= 2:
         for con in contests.values():
-            mp = max(asn.p_value for asn in con.assertions.values())
+            mp = max((asn.p_value for asn in con.assertions.values()), default=0.0)
             if mp > con.risk_limit and any(mp <= l for l in lims if l != con.risk_limit):
                 rec.count("contest_meets_neighbours_limit_not_own")
     if bool(result) != want:
@@ -314,6 +314,17 @@ def run_case(es, rec):
                         cc.risk_limit = rng.choice((math.nextafter(mp, 0.0), mp, math.nextafter(mp, 1.0)))
                         rec.count("status_asked_with_a_limit_within_one_ulp_of_the_measured_risk")
                     c2[cid_] = cc
+                if rng.random() < 0.5:
+                    # an uncontested race is part of the audit: a contest object with no assertions (nothing to confirm),
+                    # with a limit of its own, somewhere in the list
+                    ce = copy.copy(next(iter(sim.contests.values())))
+                    ce.id = ce.name = "uncontested"
+                    ce.assertions = {}
+                    ce.risk_limit = rng.choice((0.0001, 0.01, 0.05))
+                    items = list(c2.items())
+                    items.insert(rng.randint(0, len(items)), ("uncontested", ce))
+                    c2 = dict(items)
+                    rec.count("status_asked_with_a_contest_that_has_no_assertions")
                 rec.count("status_asked_for_copied_contests_with_other_limits")
                 ok, _ = rec.guard("c09.call:summarize_status", audit.summarize_status, c2)
                 if not ok:
